@@ -262,6 +262,15 @@ impl<S: MdkStorageProvider> World<S> {
                         let vleaf = mls.members().find(|mm| BasicCredential::try_from(mm.credential.clone()).map(|c| c.identity() == vpk.to_bytes()).unwrap_or(false))?.index;
                         let (commit, _w, _gi) = mls.remove_members(&mdk.provider, &signer, &[vleaf]).ok()?;
                         commit.tls_serialize_detached().ok()?
+                    } else if akind == "ic" {
+                        if self.clients[victim].keys.public_key() == self.clients[m].keys.public_key() { return None; }
+                        // a path-only commit whose leaf keeps the author's MLS signature key but names ANOTHER Nostr identity
+                        // (that of client `victim`) in its credential
+                        use openmls::prelude::{CredentialWithKey, LeafNodeParameters, NewSignerBundle};
+                        let forged = CredentialWithKey { credential: BasicCredential::new(self.clients[victim].keys.public_key().to_bytes().to_vec()).into(), signature_key: signer.public().into() };
+                        let params = LeafNodeParameters::builder().with_credential_with_key(forged.clone()).with_capabilities(leaf.capabilities().clone()).with_extensions(leaf.extensions().clone()).build();
+                        let bundle = mls.self_update_with_new_signer(&mdk.provider, &signer, NewSignerBundle { signer: &signer, credential_with_key: forged }, params).ok()?;
+                        bundle.commit().tls_serialize_detached().ok()?
                     } else {
                         // GroupContextExtensions commit replacing the group-data extension: "ga" grants the author admin
                         // rights, "gn" renames the group
@@ -289,7 +298,10 @@ impl<S: MdkStorageProvider> World<S> {
                         let refs: Vec<u64> = swept.iter().filter(|x| !(akind == "rm" && **x == victim)).filter_map(|x| self.leave_ev.get(x)).cloned().collect();
                         self.events.insert(ev, EvInfo { event: e, kind: "commit".into(), author: m, state: st.parse().unwrap_or(9999), epoch: ep, ts, msg: None, ckind: format!("adv-{akind}"), refs: refs.clone(), auth: is_admin, removes: removes.clone() });
                         let j = |v: Vec<String>| if v.is_empty() { "-".to_string() } else { v.join(",") };
-                        (format!("{} | author={m} parent={st} pepoch={ep} idkey={key} auth={} data={} removes={} refs={}", t.join(" "), is_admin as u8, if akind == "gn" { ev + 1 } else { 0 }, j(removes.iter().map(|x| x.to_string()).collect()), j(refs.iter().map(|x| x.to_string()).collect())), "ok".into())
+                        // an identity change is a pure self-update as far as authorisation goes; it is refused by validate_commit_identities
+                        let (is_admin, bad) = if akind == "ic" { (true, " bad=8") } else { (is_admin, "") };
+                        if akind == "ic" { if let Some(i) = self.events.get_mut(&ev) { i.auth = false; } }
+                        (format!("{} | author={m} parent={st} pepoch={ep} idkey={key} auth={} data={} removes={} refs={}{bad}", t.join(" "), is_admin as u8, if akind == "gn" { ev + 1 } else { 0 }, j(removes.iter().map(|x| x.to_string()).collect()), j(refs.iter().map(|x| x.to_string()).collect())), "ok".into())
                     }
                     _ => (format!("{} | refused=1", t.join(" ")), "ok".into()),
                 }
